@@ -350,6 +350,9 @@ func specC06() *propertySpec {
 			{"C06-R3", "format-agreement: '#' comments, 'version#seed' header (base 10), '0x%x' words parsed with base 0, '\\n' separators; rapidVersion has no '#' or newline", ruleC06R3},
 			{"C06-R4", "unbounded-lines: the reader accepts lines of any length (Scanner with Buffer(_, >= MaxInt32) before the first Scan, or a reader without token limit)", ruleC06R4},
 			{"C06-R5", "order: Glob(failFilePattern(tb.Name())) and the checkFailFile loop precede findBug on every path; explicit file first; a reproducing file returns valid=0 and its name", ruleC06R5},
+			{"C06-R7", "private-io-state: the fail-file functions share no mutable package-level buffer or table (concurrently running checks load and save at the same time; shared with C15-R4)", func(r *Run) {
+				ruleSharedContents(r, map[string]bool{"loadFailFile": true, "saveFailFile": true, "checkFailFile": true, "failFileName": true, "failFilePattern": true, "kindaSafeFilename": true, "doCheck": true, "checkTB": true, "captureTestOutput": true}, 1)
+			}},
 			{"C06-R6", "saved-is-reported: captureTestOutput/saveFailFile/final replay use doCheck's buffer (#5) and seed (#3); saved iff failfile == \"\" && !nofailfile; target failFileName(tb.Name())", func(r *Run) { ruleC01R1(r); ruleC06R6(r) }},
 		},
 	}
